@@ -169,6 +169,34 @@ def observed_steps(case, impl_case):
     return out
 
 
+def user_adjustments(case, nodes):
+    """{path: {row: amount}} of explicit non-flow adjustments made by user-written algos, and the set of paths
+    that receive outside money through their own stack (CapitalFlow, or a user adjust booked as a flow)"""
+    specs = spec_index(case["tree"])
+    nonflow, outside = {}, set()
+
+    def flows_in(a):
+        if a[0] == "capitalflow" or (a[0] == "useradjust" and a[2]):
+            return True
+        return any(flows_in(y) for x in a[1:] if isinstance(x, list)
+                   for y in ([x] if x and isinstance(x[0], str) else x) if isinstance(y, list) and y and isinstance(y[0], str))
+    for path, sp in specs.items():
+        if sp[0] != "strat" or len(sp) <= 4:
+            continue
+        if any(flows_in(a) for a in sp[4]):
+            outside.add(path)
+        for a in sp[4]:
+            if a[0] == "useradjust" and not a[2]:
+                node = nodes.get(path)
+                if node is None:
+                    continue
+                for key, toks in node.f.items():
+                    if key.startswith("trace.") and key.endswith(".res") and toks[1] == "T" and toks[0] != "-":
+                        d = nonflow.setdefault(path, {})
+                        d[int(toks[0])] = d.get(int(toks[0]), 0.0) + float.fromhex(a[1])
+    return nonflow, outside
+
+
 # ---------------------------------------------------------------- C07
 def c07_trade_booking(case, impl_case, comm_fee):
     """per direct trade on a security: the parent's capital moves by -(outlay + fee), its fee accumulator by the
@@ -230,27 +258,16 @@ def c07_ledger(case, impl_case):
     root, nodes, _ = build_tree(state)
     if root is None:
         return fails
-    specs = spec_index(case["tree"])
-
-    def has_flow_algo(a):
-        if a[0] == "capitalflow":
-            return True
-        return any(has_flow_algo(x) for x in a[1:] if isinstance(x, list) and x and isinstance(x[0], str)) or \
-            any(has_flow_algo(y) for x in a[1:] if isinstance(x, list) for y in x if isinstance(y, list) and y and isinstance(y[0], str))
+    nonflow, outside = user_adjustments(case, nodes)
     for n in walk(root):
         if n.kind != "G":
             continue
         # a sub-strategy with its own CapitalFlow receives outside money: its flows are not all passed down by n
-        skip = False
-        for k in n.kids:
-            sp = specs.get(strip_paper(k.path))
-            if k.kind == "G" and sp is not None and len(sp) > 4 and any(has_flow_algo(a) for a in sp[4]):
-                skip = True
-        if skip:
+        if any(k.kind == "G" and strip_paper(k.path) in outside for k in n.kids):
             continue
         cash, flows, fees = n.vals("hg_cash"), n.vals("hg_flows"), n.vals("hg_fees")
         for t in range(1, len(cash)):
-            want = flows[t] - fees[t]
+            want = flows[t] - fees[t] + nonflow.get(strip_paper(n.path), {}).get(t, 0.0)
             for k in n.kids:
                 if k.kind == "S":
                     want -= k.vals("h_outlays")[t]
@@ -400,6 +417,23 @@ def c02_attribution(case, impl_case):
     for path, sp in specs.items():
         if path != "r" and sp[0] == "strat" and len(sp) > 4 and any(has_flow_algo(a) for a in sp[4]):
             return fails          # outside money enters below the root: not visible in the root's flows
+    # explicit non-flow adjustments made by user-written algos (last in their stack: executed iff the stack reports True)
+    nonflow = {}
+    for path, sp in specs.items():
+        if sp[0] != "strat" or len(sp) <= 4:
+            continue
+        for a in sp[4]:
+            if a[0] == "useradjust":
+                if a[2]:                      # booked as a flow
+                    if path != "r":
+                        return fails
+                    continue
+                node = nodes.get(path)
+                if node is None:
+                    continue
+                for key, toks in node.f.items():
+                    if key.startswith("trace.") and key.endswith(".res") and toks[1] == "T" and toks[0] != "-":
+                        nonflow[int(toks[0])] = nonflow.get(int(toks[0]), 0.0) + float.fromhex(a[1])
     prices = {k: [float("nan") if x == "nan" else float.fromhex(x) for x in col] for k, col in case["prices"]}
     prices = {k: [float("nan")] + col for k, col in prices.items()}      # the synthetic first row
     mults = mults_of_case(case)
@@ -407,7 +441,7 @@ def c02_attribution(case, impl_case):
     secs = [n for n in walk(root) if n.kind == "S" and n.f.get("priced", ["T"])[0] == "T"]
     strats = [n for n in walk(root) if n.kind == "G"]
     for t in range(1, len(vals)):
-        want = flows[t]
+        want = flows[t] + nonflow.get(t, 0.0)
         ok = True
         for s_ in secs:
             sid = int(s_.path.split(".")[-1])
